@@ -20,9 +20,9 @@ import (
 func init() {
 	core.Register(&core.Prop{
 		ID: "C08", Level: "exploration",
-		Rule: "cases are event sequences of 10-60 steps over {connect, inbound Logon (valid, too high, too low, 141=Y, wrong CompID), inbound application message / Heartbeat / TestRequest / Logout / garbage, application send (also while disconnected), the four timer events, stop request, transport closed} for both roles, plus all sequences of length<=5 over a 10-symbol alphabet from the latent state; live part: real run loop over TCP with sender goroutines across logon, stop and disconnects; non-trivial = sequence with a completed logon, an application send outside a logon and a disconnect; distinct by (state path, disconnect cause)",
+		Rule:        "cases are event sequences of 10-60 steps over {connect, inbound Logon (valid, too high, too low, 141=Y, wrong CompID), inbound application message / Heartbeat / TestRequest / Logout / garbage, application send (also while disconnected), the four timer events, stop request, transport closed} for both roles, plus all sequences of length<=5 over a 10-symbol alphabet from the latent state; live part: real run loop over TCP with sender goroutines across logon, stop and disconnects; non-trivial = sequence with a completed logon, an application send outside a logon and a disconnect; distinct by (state path, disconnect cause)",
 		Assumptions: []string{"an in-session re-Logon re-fires OnLogon without an OnLogout: logged-on periods are counted, not callbacks", "OnLogout without a preceding OnLogon (initiator whose logon was never answered) is allowed by the statement"},
-		FloorQuick: 200, FloorThorough: 2000,
+		FloorQuick:  200, FloorThorough: 2000,
 		Parts: []core.Part{{Name: "lab", Run: runLab, Replay: replayLab}, {Name: "live", Race: true, Run: runLive}},
 	})
 }
@@ -116,7 +116,7 @@ func Automaton(tr []lab.Event) (viol []string, stats map[string]int) {
 	return
 }
 
-var symbols = []string{"connect", "logon", "logon-high", "logon-low", "logon-reset", "logon-badcomp", "app-in", "hb-in", "testreq-in", "logout-in", "garbage-in", "send", "send", "t-heartbeat", "t-peer", "t-logon", "t-logout", "stop", "close"}
+var symbols = []string{"app-in-high", "hb-in-high", "connect", "logon", "logon-high", "logon-low", "logon-reset", "logon-badcomp", "app-in", "hb-in", "testreq-in", "logout-in", "garbage-in", "send", "send", "t-heartbeat", "t-peer", "t-logon", "t-logout", "stop", "close"}
 
 func apply(l *lab.Lab, p *lab.Peer, sym string, k int) {
 	sn := l.Snap()
@@ -144,6 +144,10 @@ func apply(l *lab.Lab, p *lab.Peer, sym string, k int) {
 		l.In("Logon (wrong SenderCompID)", raw)
 	case "app-in":
 		l.In("app", p.NewOrder(sn.NextTarget, nil, fmt.Sprintf("i%d", k)))
+	case "app-in-high":
+		l.In("app (too high)", p.NewOrder(sn.NextTarget+2, nil, fmt.Sprintf("h%d", k)))
+	case "hb-in-high":
+		l.In("Heartbeat (too high)", p.Msg("0", sn.NextTarget+3, nil, nil))
 	case "hb-in":
 		l.In("Heartbeat", p.Msg("0", sn.NextTarget, nil, nil))
 	case "testreq-in":
@@ -260,7 +264,7 @@ func runLab(c *core.Ctx, r *core.Result) {
 		sequence(c, r, "random", i, randomSeq(rng), core.Pick(rng, "FIX.4.0", "FIX.4.2", "FIX.4.4", "FIXT.1.1"), rng.Intn(2) == 0, false)
 	})
 	// systematic: all sequences of length<=L over a 10-symbol alphabet from the latent state
-	alpha := []string{"connect", "logon", "app-in", "send", "logout-in", "t-peer", "t-logout", "stop", "close", "logon-high"}
+	alpha := []string{"connect", "logon", "app-in", "send", "logout-in", "t-peer", "app-in-high", "stop", "close", "logon-high"}
 	L := c.N(4, 5)
 	var seqs [][]string
 	var rec func(prefix []string)
